@@ -217,14 +217,26 @@ class WireView:
         out_rst = {}      # sid -> list of (step, code)
         peer_frames_on = {}
         peer_rst = {}
+        prev_snap = {}
+        other_error = False      # a GOAWAY from the peer / a connection-level failure may reach the stream first (first error wins)
+        tainted = set()
         for st in self.sc["trace"]:
             op, res = st["op"], st["res"]
             o = op.get("op")
+            if o in ("eof", "read_fail", "drop_conn", "abrupt_shutdown") or (o == "write_mode" and op.get("mode") in ("fail", "zero")):
+                other_error = True
+            if o in ("conn_poll", "poll_accept") and isinstance(res, str) and res.startswith("E("):
+                other_error = True
+            if o == "peer" and isinstance(op.get("what"), dict) and (op["what"].get("t") == "GOAWAY" or "chaos" in op["what"]):
+                other_error = True
             if isinstance(res, dict) and "sid" in res and "h" in res:
                 handles[res["h"]] = res["sid"]
             if o in ("send_reset", "respond_reset") and res == "ok":
                 sid = handles.get(op.get("h"))
-                if sid is not None and sid not in explicit:
+                # the library may already have reset the stream (peer violation): then the call is a no-op
+                already = any(e[0] == "send.send_reset" and len(e) > 12 and e[12] == 1 for e in st.get("ev", []))
+                live = any(e[0] == "send.send_reset" for e in st.get("ev", []))
+                if sid is not None and sid not in explicit and live and not already:
                     explicit[sid] = op.get("code", 8)
             if o == "peer" and isinstance(op.get("what"), dict):
                 w = op["what"]
@@ -234,23 +246,31 @@ class WireView:
                     if sid in out_rst:
                         fed_after_rst[sid] = fed_after_rst.get(sid, 0) + 1
                 if w.get("t") == "RST_STREAM":
+                    # first error wins: the stream may already have failed (library reset still queued behind a blocked
+                    # write, connection error, ...); the statistics snapshot of the previous step tells
+                    already_closed = any(x["id"] == sid and x["state"].startswith("Closed(") and "EndStream)" not in x["state"][:18]
+                                         for x in prev_snap.get("streams", []))
+                    if other_error or sid in out_rst or already_closed or not prev_snap:
+                        tainted.add(sid)
                     peer_rst.setdefault(sid, w.get("code"))
             # surfaced error codes
             if isinstance(res, str) and res.startswith("E(reset,") and op.get("h") in handles:
                 sid = handles[op["h"]]
                 parts = res[2:-1].split(",")
                 code, origin = parts[1], parts[2]
-                if origin == "remote" and sid in peer_rst and str(peer_rst[sid]) != code:
+                if origin == "remote" and sid in peer_rst and sid not in tainted and str(peer_rst[sid]) != code:
                     v.append({"step": st["i"], "why": "a peer RST_STREAM surfaced with a different code", "sid": sid, "wire": peer_rst[sid], "api": res})
                 if origin == "remote" and sid not in peer_rst:
                     v.append({"step": st["i"], "why": "a handle reports a remote reset but the peer never reset this stream", "sid": sid, "api": res})
             if o in ("poll_reset", "respond_poll_reset") and isinstance(res, dict) and "reason" in res and op.get("h") in handles:
                 sid = handles[op["h"]]
-                if sid in peer_rst and sid not in explicit and res["reason"] != peer_rst[sid] and sid not in out_rst:
+                if sid in peer_rst and sid not in tainted and sid not in explicit and res["reason"] != peer_rst[sid] and sid not in out_rst:
                     v.append({"step": st["i"], "why": "poll_reset reports a code different from the peer's RST_STREAM", "sid": sid, "wire": peer_rst[sid], "api": res})
             for f in st["out"]:
                 if f["t"] == "RST_STREAM":
                     out_rst.setdefault(f["sid"], []).append((st["i"], f.get("code")))
+            if "snap" in st:
+                prev_snap = st["snap"]
         for sid, lst in out_rst.items():
             # replies to late peer frames on a stream already reset are allowed: one per offending frame
             # every peer frame on the stream may legitimately be answered by one more RST_STREAM (late frames)
@@ -274,9 +294,32 @@ class WireView:
         v = []
         done_at = None
         data_done = set()
+        handles = {}
+        eos_out, eos_in, rst = set(), set(), set()
         for st in self.sc["trace"]:
             op, res = st["op"], st["res"]
             o = op.get("op")
+            if isinstance(res, dict) and "sid" in res and "h" in res:
+                handles[res["h"]] = res["sid"]
+                if o == "send_request" and op.get("eos"):
+                    eos_out.add(res["sid"])
+            # the endpoint regards its side as finished once END_STREAM was submitted (queued), written or not
+            if o in ("send_response", "send_pushed_response", "send_data") and res == "ok" and op.get("eos") and op.get("h") in handles:
+                eos_out.add(handles[op["h"]])
+            if o == "send_trailers" and res == "ok" and op.get("h") in handles:
+                eos_out.add(handles[op["h"]])
+            if done_at is None:
+                if o == "peer" and isinstance(op.get("what"), dict):
+                    w = op["what"]
+                    if w.get("t") in ("HEADERS", "DATA") and w.get("eos"):
+                        eos_in.add(w.get("sid"))
+                    if w.get("t") == "RST_STREAM" and not (w.get("sid") in eos_out and w.get("sid") in eos_in):
+                        rst.add(w.get("sid"))       # a reset after the stream had completed changes nothing
+                for f in st["out"]:
+                    if f["t"] in ("HEADERS", "DATA") and f.get("eos"):
+                        eos_out.add(f["sid"])
+                    if f["t"] == "RST_STREAM" and not (f["sid"] in eos_out and f["sid"] in eos_in):
+                        rst.add(f["sid"])
             if o == "poll_data" and (res == "None" or (isinstance(res, str) and res.startswith("E("))):
                 data_done.add(op.get("h"))
             if done_at is None:
@@ -293,14 +336,108 @@ class WireView:
                                           "poll_ready", "poll_pong", "poll_push", "poll_pushed_response", "poll_informational"):
                 if o == "poll_trailers" and op.get("h") not in data_done:
                     continue
-                cls = "reset-wait-on-cleanly-closed-stream" if o in ("poll_reset", "respond_poll_reset") else "pending-after-end"
+                sid = handles.get(op.get("h"))
+                clean = sid in eos_out and sid in eos_in and sid not in rst
+                cls = "reset-wait-on-cleanly-closed-stream" if (o in ("poll_reset", "respond_poll_reset") and clean) else "pending-after-end"
                 v.append({"step": st["i"], "why": "operation still Pending after the connection ended", "class": cls, "op": op, "connection_ended_at": done_at})
         return v, done_at
 
 
+# -------- C09
+MUST_CONN_ERROR = {
+    "wu-zero-conn", "data-on-zero", "data-on-idle", "data-too-much-padding", "settings-bad-window", "ping-bad-len",
+    "rst-on-zero", "stray-continuation", "headers-bad-hpack", "rst-on-idle", "goaway-short",
+}
+
+
+def reaction_oracle(sc):
+    """Violations that corrupt shared state must end the connection with a GOAWAY carrying an error code: take the
+    first injected frame of an unambiguous connection-error class (window increment 0 on stream 0, DATA or RST_STREAM on
+    stream 0, DATA / RST_STREAM on an idle stream, padding longer than the payload, SETTINGS_INITIAL_WINDOW_SIZE above
+    2^31-1, PING or GOAWAY with a bad length, CONTINUATION without HEADERS, an undecodable header block); if the endpoint
+    consumed it while the connection was alive and the run was driven to quiescence, a GOAWAY with a non-zero code
+    must have been written, and no later peer frame may have been acted on (no new stream accepted afterwards)."""
+    if not sc.get("settled"):
+        return None
+    first = None
+    ended = False
+    for st in sc["trace"]:
+        op, res = st["op"], st["res"]
+        o = op.get("op")
+        if o in ("eof", "read_fail", "drop_conn", "abrupt_shutdown", "graceful_shutdown") or (o == "write_mode" and op.get("mode") in ("fail", "zero")):
+            ended = True
+        if o in ("conn_poll", "poll_accept") and isinstance(res, str) and (res.startswith("E(") or res.startswith("Ready") or res == "None"):
+            if first is None:
+                ended = True
+        if o == "peer" and isinstance(op.get("what"), dict):
+            w = op["what"]
+            if w.get("t") == "GOAWAY" and first is None:
+                ended = True        # after the peer's GOAWAY the endpoint may legitimately be closing
+            if "chaos" in w and first is None and not ended:
+                if w["chaos"] in MUST_CONN_ERROR:
+                    first = (st["i"], w["chaos"])
+                else:
+                    return None     # an ambiguous injection came first: no verdict for this run
+    if first is None:
+        return None
+    step, kind = first
+    consumed = False
+    goaway = None
+    accepted_after = None
+    for st in sc["trace"]:
+        if st["i"] <= step:
+            continue
+        if st.get("io", {}).get("inbound") == 0 and st["op"].get("op") in ("conn_poll", "poll_accept"):
+            consumed = True
+        for f in st["out"]:
+            if f["t"] == "GOAWAY" and f.get("code", 0) != 0:
+                goaway = (st["i"], f.get("code"))
+        if consumed and goaway is None and st["op"].get("op") == "poll_accept" and isinstance(st["res"], dict) and "sid" in st["res"]:
+            # accepted a stream from frames fed after the violation? only count streams whose HEADERS were fed after it
+            fed_after = any(t["i"] > step and t["op"].get("op") == "peer" and isinstance(t["op"].get("what"), dict)
+                            and t["op"]["what"].get("t") == "HEADERS" and t["op"]["what"].get("sid") == st["res"]["sid"] for t in sc["trace"])
+            if fed_after:
+                accepted_after = st["i"]
+    if not consumed:
+        return None
+    if goaway is None:
+        return {"step": step, "why": "a connection-level violation was consumed but no GOAWAY with an error code was written", "violation": kind}
+    if accepted_after is not None:
+        return {"step": step, "why": "a stream opened after a connection-level violation was still handed to the application", "violation": kind, "accepted_at": accepted_after}
+    return None
+
+
+def tolerance_oracle(sc):
+    """Legal traffic is never penalised: in a run whose scripted peer stays strictly within the protocol (profile `legal`) the
+    endpoint writes no GOAWAY with an error code and no RST_STREAM with a protocol-violation code (PROTOCOL_ERROR,
+    FLOW_CONTROL_ERROR, STREAM_CLOSED, FRAME_SIZE_ERROR, COMPRESSION_ERROR) unless the application asked for that code."""
+    if sc.get("profile") != "legal":
+        return None
+    asked = set()
+    rst_before = set()
+    for st in sc["trace"]:
+        op = st["op"]
+        if op.get("op") in ("send_reset", "respond_reset", "abrupt_shutdown"):
+            asked.add(op.get("code"))
+        if op.get("op") in ("eof", "read_fail", "drop_conn") or (op.get("op") == "write_mode" and op.get("mode") in ("fail", "zero")):
+            return None
+        for f in st["out"]:
+            if f["t"] == "GOAWAY" and f.get("code", 0) not in (0,) and f.get("code") not in asked:
+                return {"step": st["i"], "why": "GOAWAY with an error code although the peer sent only legal traffic", "code": f.get("code")}
+            if f["t"] == "RST_STREAM":
+                late_reply = f["sid"] in rst_before      # STREAM_CLOSED replies to frames racing with our own reset are permitted
+                rst_before.add(f["sid"])
+                if late_reply:
+                    continue
+            if f["t"] == "RST_STREAM" and f.get("code") in (1, 3, 5, 6, 9) and f.get("code") not in asked:
+                return {"step": st["i"], "why": "RST_STREAM with a protocol-violation code although the peer sent only legal traffic", "sid": f["sid"], "code": f.get("code")}
+    return None
+
+
 def wire_oracles(sc):
     wv = WireView(sc)
-    return {"C04": wv.sender_oracle(), "C17": wv.reset_oracle(), "C07": wv.ending_oracle()[0]}
+    r9 = [x for x in (reaction_oracle(sc), tolerance_oracle(sc)) if x]
+    return {"C04": wv.sender_oracle(), "C17": wv.reset_oracle(), "C07": wv.ending_oracle()[0], "C09": r9}
 
 
 if __name__ == "__main__":
@@ -308,9 +445,9 @@ if __name__ == "__main__":
     sys.path.insert(0, "/verif/lib")
     sys.path.insert(0, "/verif/lib/props/parts")
     import sendflow
-    tot = {"C04": 0, "C17": 0, "C07": 0}
+    tot = {"C04": 0, "C17": 0, "C07": 0, "C09": 0}
     shown = 0
-    for pi, prof in enumerate(("mixed", "reset", "limits", "shutdown", "flow")):
+    for pi, prof in enumerate(("mixed", "reset", "limits", "shutdown", "flow", "chaos", "legal")):
         scs, _ = sendflow.gen_scenarios(int(sys.argv[1]) * 101 + pi, 60, 100, prof, snap=False)
         for sc in scs:
             r = wire_oracles(sc)
